@@ -20,21 +20,50 @@ def env1(ctx):
     r = RuleResult("ENV-1", "contexts and exceptions: before-half reversed and matched on the reversed word at the reversed position, after-half on the word; both required; verdict = context && !exception", floor=24)
     lib = ctx.lib
     b = ctx.fn(lib, SUB + "match_contexts_and_exceptions")
-    root = b.hir["body"]
-    lets = single_lets(root)
-    word_p = b.param_names[1]
-    start_p, end_p = b.param_names[2], b.param_names[3]
-    # word_rev = word.reverse()
-    revs = [nm for nm, init in lets.items() if hirq.strip(init).get("e") == "mcall" and hirq.strip(init)["name"] == "reverse" and expr_name(hirq.strip(init)["recv"]) == ("local", word_p)]
-    if len(revs) != 1:
+    KEEP = {SUB + "match_before_env", SUB + "match_after_env", SUB + "get_contexts", SUB + "get_exceptions"}
+    # helpers extracted from this function are looked through (their calls are expanded in place)
+    root = hirq.inline_helpers(lib, b, keep=KEEP)
+    pnames = b.param_names
+    phid = {}
+    for p in b.hir.get("params") or []:
+        for q in hirq.walk_pats(p):
+            if q.get("p") == "bind":
+                phid[q["name"]] = q.get("hid")
+    word_p, start_p, end_p = pnames[1], pnames[2], pnames[3]
+    D_word = hirq.derived_hids(root, {phid[word_p]})
+    D_start = hirq.derived_hids(root, {phid[start_p]})
+    D_end = hirq.derived_hids(root, {phid[end_p]})
+    # the reversed word: bindings whose initialiser is `<word>.reverse()`
+    rev_seeds = set()
+    for n in hirq.walk(root):
+        if n["e"] == "let" and n.get("init") is not None and n["pat"].get("p") == "bind":
+            i0 = hirq.strip(n["init"])
+            if i0.get("e") == "mcall" and i0["name"] == "reverse" and hirq.path_hid(i0["recv"]) in D_word:
+                rev_seeds.add(n["pat"]["hid"])
+    if len(rev_seeds) != 1:
         raise AnchorMissing("match_contexts_and_exceptions: `let word_rev = word.reverse()` not found")
-    word_rev = revs[0]
-    # sources of the two loops
+    D_rev = hirq.derived_hids(root, rev_seeds)
+    D_word_only = D_word - D_rev
     src = {}
-    for nm, init in lets.items():
-        i0 = hirq.strip(init)
-        if i0.get("e") == "mcall" and i0["name"] in ("get_contexts", "get_exceptions"):
-            src[nm] = i0["name"]
+    for n in hirq.walk(root):
+        if n["e"] == "let" and n.get("init") is not None and n["pat"].get("p") == "bind":
+            i0 = hirq.strip(n["init"])
+            if i0.get("e") == "mcall" and i0["name"] in ("get_contexts", "get_exceptions"):
+                src[n["pat"]["name"]] = i0["name"]
+    reversed_hids = {hirq.path_hid(m["recv"]) for m in hirq.walk(root) if m["e"] == "mcall" and m["name"] == "reverse" and not m["args"]}
+    fb = ctx.fn(lib, SUB + "match_before_env")
+    fa = ctx.fn(lib, SUB + "match_after_env")
+    ib = fb.param_names.index("is_context") - 1
+    ia = fa.param_names.index("is_context") - 1
+    lit_lets = {n["pat"]["hid"]: hirq.strip(n["init"]).get("lit") for n in hirq.walk(root)
+                if n["e"] == "let" and n["pat"].get("p") == "bind" and n.get("init") is not None and hirq.strip(n["init"]).get("lk") == "bool"}
+
+    def bool_of(e):
+        e0 = hirq.strip(e)
+        if e0.get("lk") == "bool":
+            return e0["lit"]
+        h = hirq.path_hid(e0)
+        return lit_lets.get(h)
     seen = {}
     for pat, it, body, ln in for_loops(root):
         base = expr_name(it)
@@ -44,62 +73,55 @@ def env1(ctx):
         is_ctx = kind == "get_contexts"
         label = "contexts" if is_ctx else "exceptions"
         seen[label] = ln
-        bef, aft = pat["pats"][0].get("name"), pat["pats"][1].get("name")
-        ilets = single_lets(body)
-        # locals that are a (reversed) copy of the before-half
-        bef_copies = {nm for nm, init in ilets.items() if any(m["e"] == "path" and m.get("local") == bef for m in hirq.walk(init))}
-        reversed_locals = {expr_name(m["recv"])[-1] for m in hirq.walk(body) if m["e"] == "mcall" and m["name"] == "reverse" and not m["args"]}
-        iffs = [n for n in hirq.walk(body) if n["e"] == "if"]
+        D_bef = hirq.derived_hids(body, {pat["pats"][0].get("hid")})
+        D_aft = hirq.derived_hids(body, {pat["pats"][1].get("hid")})
+        iffs = [n for n in hirq.walk(body) if n["e"] == "if" and not n.get("inl")]
         if not iffs:
             raise AnchorMissing("%s loop: no `if`" % label)
         iff = iffs[0]
-        cond = hirq.strip(iff["cond"])
 
         def check(ok, what, key, msg):
             r.inst("%s: %s" % (label, what), fn_loc(b, ln), "ok" if ok else "report")
             if not ok:
                 r.report("ENV-1|%s|%s" % (label, key), fn_loc(b, iff["ln"]), b.path, "%s: %s" % (label, msg))
-        # both halves required
-        check(cond.get("e") == "binary" and cond.get("op") == "And", "the two halves are joined by &&", "and",
-              "the before-half and the after-half are not both required (top operator is %s)" % cond.get("op"))
-        halves = [hirq.strip(cond.get("a") or {}), hirq.strip(cond.get("b") or {})]
+        # the conjunction that holds both calls (in the condition itself or inside a helper expanded into it)
+        both = None
+        for n in hirq.walk(iff["cond"]):
+            if n["e"] == "binary" and n["op"] in ("And", "Or", "BitAnd", "BitOr"):
+                la = [m["name"] for m in hirq.walk(n["a"]) if m["e"] == "mcall" and m["name"] in ("match_before_env", "match_after_env")]
+                lb = [m["name"] for m in hirq.walk(n["b"]) if m["e"] == "mcall" and m["name"] in ("match_before_env", "match_after_env")]
+                if la and lb and set(la) != set(lb):
+                    both = n
+                    break
+        if both is None:
+            raise AnchorMissing("%s loop: no expression combining match_before_env and match_after_env" % label)
+        check(both["op"] == "And", "the two halves are joined by &&", "and",
+              "the before-half and the after-half are not both required (they are joined by %s)" % both["op"])
         calls = {}
-        for h in halves:
+        for h in (hirq.strip(both["a"]), hirq.strip(both["b"])):
             ms = [n for n in hirq.walk(h) if n["e"] == "mcall" and n["name"] in ("match_before_env", "match_after_env")]
-            empt = [expr_name(n["recv"])[-1] for n in hirq.walk(h) if n["e"] == "mcall" and n["name"] == "is_empty"]
+            empt = [hirq.path_hid(n["recv"]) for n in hirq.walk(h) if n["e"] == "mcall" and n["name"] == "is_empty"]
             for m in ms:
                 calls[m["name"]] = (m, h.get("op"), empt)
-        if set(calls) != {"match_before_env", "match_after_env"}:
-            raise AnchorMissing("%s loop: match_before_env / match_after_env calls not found in the condition" % label)
         mb, opb, emb = calls["match_before_env"]
         ma, opa, ema = calls["match_after_env"]
-        sb = expr_name(mb["args"][0])[-1]
-        check(sb in bef_copies and sb in reversed_locals, "before-half is a reversed copy of the loop's first element", "before-states",
-              "match_before_env gets `%s`, which is not the reversed copy of the before-half `%s`" % (sb, bef))
-        check(expr_name(mb["args"][1]) == ("local", word_rev), "before-half is matched on the reversed word", "before-word",
+        sb = hirq.path_hid(mb["args"][0])
+        check(sb in D_bef and sb in reversed_hids, "before-half is a reversed copy of the pair's first element", "before-states",
+              "match_before_env is not given a reversed copy of the before-half")
+        check(hirq.path_hid(mb["args"][1]) in D_rev, "before-half is matched on the reversed word", "before-word",
               "match_before_env is given `%s` instead of the reversed word" % (expr_name(mb["args"][1])[-1],))
         p0 = hirq.strip(mb["args"][2])
-        while p0.get("e") == "addr":
-            p0 = hirq.strip(p0["a"])
-        okp = p0.get("e") == "mcall" and p0["name"] == "reversed" and expr_name(p0["recv"]) == ("local", start_p) and p0["args"] and expr_name(p0["args"][0]) == ("local", word_p)
-        check(okp, "before-half starts at start_pos.reversed(word)", "before-pos", "match_before_env does not start at `%s.reversed(%s)`" % (start_p, word_p))
+        okp = p0.get("e") == "mcall" and p0["name"] == "reversed" and hirq.path_hid(p0["recv"]) in D_start and p0["args"] and hirq.path_hid(p0["args"][0]) in D_word_only
+        check(bool(okp), "before-half starts at start_pos.reversed(word)", "before-pos", "match_before_env does not start at `%s.reversed(%s)`" % (start_p, word_p))
         check(opb == "Or" and sb in emb, "an empty before-half is vacuous", "before-empty", "the before-half is not skipped when empty")
-        sa = expr_name(ma["args"][0])[-1]
-        check(sa == aft and sa not in reversed_locals, "after-half is the loop's second element, not reversed", "after-states",
-              "match_after_env gets `%s` instead of the after-half `%s`" % (sa, aft))
-        check(expr_name(ma["args"][1]) == ("local", word_p), "after-half is matched on the word itself", "after-word",
+        sa = hirq.path_hid(ma["args"][0])
+        check(sa in D_aft and sa not in reversed_hids and sa not in D_bef, "after-half is the pair's second element, not reversed", "after-states",
+              "match_after_env is not given the after-half as it stands")
+        check(hirq.path_hid(ma["args"][1]) in D_word_only, "after-half is matched on the word itself", "after-word",
               "match_after_env is given `%s` instead of the word" % (expr_name(ma["args"][1])[-1],))
-        pa = hirq.strip(ma["args"][2])
-        while pa.get("e") == "addr":
-            pa = hirq.strip(pa["a"])
-        check(expr_name(pa) == ("local", end_p), "after-half starts at end_pos", "after-pos", "match_after_env does not start at `%s`" % end_p)
+        check(hirq.path_hid(ma["args"][2]) in D_end, "after-half starts at end_pos", "after-pos", "match_after_env does not start at `%s`" % end_p)
         check(opa == "Or" and sa in ema, "an empty after-half is vacuous", "after-empty", "the after-half is not skipped when empty")
-        # is_context flags
-        fb = lib.body(SUB + "match_before_env")
-        fa = lib.body(SUB + "match_after_env")
-        ib = fb.param_names.index("is_context") - 1
-        ia = fa.param_names.index("is_context") - 1
-        vb, va = hirq.strip(mb["args"][ib]).get("lit"), hirq.strip(ma["args"][ia]).get("lit")
+        vb, va = bool_of(mb["args"][ib]), bool_of(ma["args"][ia])
         check(vb is is_ctx and va is is_ctx, "is_context = %s in both calls" % is_ctx, "is_context", "is_context is (%s, %s); %s need %s" % (vb, va, label, is_ctx))
         flag = [expr_name(n["lhs"])[-1] for n in hirq.walk(iff["then"]) if n["e"] == "assign" and hirq.strip(n["rhs"]).get("lit") is True]
         seen[label + "_flag"] = flag[0] if len(flag) == 1 else None
@@ -108,11 +130,10 @@ def env1(ctx):
         raise AnchorMissing("match_contexts_and_exceptions: loops over contexts and exceptions not both found")
     # verdict
     fin = None
-    tail = hirq.strip(root)
     for n in hirq.walk(root):
         if n["e"] == "call" and (hirq.strip(n["f"]).get("path") or "").endswith("Result::Ok") and not n.get("exp"):
             a = hirq.strip(n["args"][0])
-            if a.get("e") == "binary":
+            if a.get("e") == "binary" and not any(m["e"] == "mcall" and m["name"] in ("match_before_env", "match_after_env") for m in hirq.walk(a)):
                 fin = a
     ok = False
     if fin is not None and fin["op"] == "And":
@@ -123,10 +144,6 @@ def env1(ctx):
     r.inst("verdict is `!<exception matched> && <context matched>`", fn_loc(b), "ok" if ok else "report")
     if not ok:
         r.report("ENV-1|verdict", fn_loc(b), b.path, "the verdict is not `!%s && %s`" % (seen.get("exceptions_flag"), seen.get("contexts_flag")))
-    # initial values: no context = matched, no exception = not matched
-    init_c = lets.get(seen.get("contexts_flag")) if seen.get("contexts_flag") else None
-    init_e = lets.get(seen.get("exceptions_flag")) if seen.get("exceptions_flag") else None
-    # flags are `let mut` and re-assigned, so single_lets drops them: read the lets directly
     inits = {n["pat"]["name"]: n["init"] for n in hirq.walk(root) if n["e"] == "let" and n["pat"].get("p") == "bind" and n.get("init") is not None}
     ic, ie = hirq.strip(inits.get(seen.get("contexts_flag"), {})), hirq.strip(inits.get(seen.get("exceptions_flag"), {}))
     ok = ic.get("e") == "mcall" and ic.get("name") == "is_empty" and src.get(expr_name(ic["recv"])[-1]) == "get_contexts" and ie.get("lit") is False
